@@ -342,6 +342,17 @@ func genC14(r *rand.Rand, tier string, env *Env) []Case {
 	for _, k := range []int{0, 1, 9, 10, 11, 99, 100, 101, 12345} {
 		cases = append(cases, Case{Kind: "itoa", Ops: []Op{{"std.natToBytes", [][]byte{bytes.Repeat([]byte{'x'}, k)}}}})
 	}
+	for k, content := range []string{
+		"# Copyright (c) 2021-2022 CRS project. All rights reserved.\nSecAction \"id:900990,phase:1,pass,t:none,nolog,setvar:tx.crs_setup_version=400\"\n",
+		"SecAction \\\n    \"id:900990,\\\n    setvar:tx.crs_setup_version=330\"\n",
+		"# Copyright (c) 2021-2024 Core Rule Set project. All rights reserved.\n",
+		"# nothing to update here\nSecRuleEngine On\n",
+	} {
+		v, y := genVersion(r), fmt.Sprint(2025+k)
+		args := [][]byte{[]byte(content), []byte(v), []byte(y)}
+		cases = append(cases, Case{Kind: "file-without-the-project-name+cli", Ops: []Op{{"copyright.updateRules", [][]byte{args[1], args[2], args[0]}}},
+			Oracles: []Op{{"c14.seq", args}, {"c14.cli", args}}})
+	}
 	for i := 0; i < n; i++ {
 		content, markers := genConfFile(r)
 		big := i%20 == 9
